@@ -288,6 +288,21 @@ fn main() {
         }
     }
 
+    // box-constrained LPs (degenerate vertices: the refinement / regularisation paths matter here)
+    if replay.is_none() {
+        for k in 0..(if thorough { 30 } else { 10 }) {
+            let n = 3 + rng.below(6);
+            let mut rows: Vec<Vec<f64>> = vec![];
+            let mut b: Vec<f64> = vec![];
+            for j in 0..n { let mut r = vec![0.0; n]; r[j] = 1.0; rows.push(r); b.push(1.0 + rng.below(3) as f64); }
+            for j in 0..n { let mut r = vec![0.0; n]; r[j] = -1.0; rows.push(r); b.push(rng.below(2) as f64); }
+            if k % 2 == 1 { rows.push(vec![1.0; n]); b.push(n as f64 / 2.0); }
+            let m = rows.len();
+            bases.push(Prob { P: CscMatrix::zeros((n, n)), q: (0..n).map(|_| (rng.range(-3, 3) as f64) + 0.5).collect(), A: dense_rows_to_csc(&rows, m, n), b,
+                              cones: vec![NonnegativeConeT(m)], label: format!("box LP n={} ({})", n, k), intent: 0 });
+        }
+    }
+
     // ------------------------------------------------------------ variants
     let tol_feas = DefaultSettings::<f64>::default().tol_feas;
     for p in bases.iter() {
